@@ -25,7 +25,7 @@ def run_ops(reqs, timeout=600):
             stdout = e.stdout.decode() if isinstance(e.stdout, bytes) else (e.stdout or "")
             stderr, rc = "timeout", -9
         begun = None
-        for line in stdout.splitlines():
+        for line in stdout.split("\n"):
             try:
                 m = json.loads(line)
             except ValueError:
